@@ -529,3 +529,88 @@ func (w *World) AllFuncs() map[*ssa.Function]bool {
 	}
 	return w.allFuncs
 }
+
+// importRules runs another property's rules on the same program and adopts the findings and the
+// statistics of the named rules (a name ending in '*' is a prefix).  A rule that is a necessary
+// condition of several properties - the message-level dispatch for every codec property, "the decoded
+// message owns its memory" for every round-trip property - is stated once and reported under each
+// property it is necessary for.
+func importRules(w *World, r *Report, from, tier string, rules []string, why string) {
+	importRulesIf(w, r, from, tier, rules, why, nil)
+}
+
+// subReports caches the sub-report of a property within one process (several importers).
+var subReports = map[string]*Report{}
+
+// importRulesIf: as importRules, adopting only the findings that keep(finding) accepts (the rule
+// statistics are adopted whole: they say what was examined).
+func importRulesIf(w *World, r *Report, from, tier string, rules []string, why string, keep func(Finding) bool) {
+	f := props[from]
+	if f == nil {
+		return
+	}
+	sub := subReports[from]
+	if sub == nil {
+		sub = NewReport(from, w)
+		f(w, sub, "quick")
+		subReports[from] = sub
+	}
+	match := func(rule string) bool {
+		for _, p := range rules {
+			if p == rule || (strings.HasSuffix(p, "*") && strings.HasPrefix(rule, strings.TrimSuffix(p, "*"))) {
+				return true
+			}
+		}
+		return false
+	}
+	var adopted []string
+	for name, st := range sub.Rules {
+		if !match(name) {
+			continue
+		}
+		if _, dup := r.Rules[name]; dup {
+			continue // the importing property states this rule itself
+		}
+		c := *st
+		r.Rules[name] = &c
+		adopted = append(adopted, name)
+	}
+	sort.Strings(adopted)
+	for _, fd := range sub.Findings {
+		if !match(fd.Rule) || (keep != nil && !keep(fd)) {
+			continue
+		}
+		dup := false
+		for _, have := range r.Findings {
+			if have.Key == fd.Key {
+				dup = true
+			}
+		}
+		if !dup {
+			r.Findings = append(r.Findings, fd)
+		}
+	}
+	if keep == nil {
+		for fn := range sub.Funcs {
+			r.Funcs[fn] = true
+		}
+	}
+	r.Note("rules shared with %s (%s): %s", from, why, strings.Join(adopted, ", "))
+}
+
+
+// importStateless adopts C19's "no hidden shared state" rules for the files a property is anchored
+// in: a conversion or codec that caches results in, or hands out memory of, a package-level variable
+// is not the function of its arguments the property describes (a second call changes or returns the
+// result of the first), so these rules are necessary conditions of every "for all inputs / sequences"
+// property over those functions.  Only findings located in the named files are adopted.
+func importStateless(w *World, r *Report, tier string, files []string, what string) {
+	importRulesIf(w, r, "C19", tier, []string{"glob.init-only", "eff.no-static", "lang.no-conc"}, "the "+what+" keep no state between calls and return memory of their own", func(f Finding) bool {
+		for _, p := range files {
+			if strings.HasPrefix(f.Pos, p) || strings.Contains(f.Msg, strings.TrimSuffix(p, ".go")) {
+				return true
+			}
+		}
+		return false
+	})
+}
